@@ -85,8 +85,14 @@ def chunking(r, d):
 
 def jvalue(r, depth=0):
     """A type-directed JSON value without floats (integers at the 64-bit edges, hostile strings)."""
-    kinds = ["null", "bool", "int", "str"] + (["arr", "obj"] if depth < 4 else [])
+    kinds = ["null", "bool", "int", "str", "dec"] + (["arr", "obj"] if depth < 4 else [])
     k = r.pick(kinds)
+    if k == "dec":
+        # short decimals (at most 6 significant digits), over the whole exponent range of binary64:
+        # JSON text carries them exactly, so they must come back exactly
+        mant = r.pick([1, 5, 15, 25, 1234, 6626, 999999, r.randrange(1, 10**6)])
+        exp = r.pick([0, -1, -2, 1, 3, -7, 10, 22, 23, -18, -19, -34, 100, -305, 300, r.randrange(-300, 300)])
+        return float(f"{'-' if r.chance(0.2) else ''}{mant}e{exp}")
     if k == "null":
         return None
     if k == "bool":
